@@ -401,8 +401,5 @@ func compatible(a, b Dev) bool {
 	if a.Kind == b.Kind && a.Field == b.Field {
 		return false // the same field twice (also trunc+trunc, type+type ...)
 	}
-	if (a.Kind == "trunc" && b.Kind == "ztrunc") || (a.Kind == "ztrunc" && b.Kind == "trunc") {
-		return true
-	}
 	return true
 }
